@@ -838,6 +838,8 @@ def run(ctx):
     from .common import shared
 
     from . import c05 as _c05
+    from . import c07 as _c07
+    shared(ctx, "C04.a", _c07.rule_d, why="the mass balance is posed on the grid generate_grid builds for the image (face areas, voxel sizes, connectivity)")
     shared(ctx, "C04.b", _c05.rule_e, why="the reported distance is the weighted transport cost of the returned flux: the weights that enter the cost must be the user's")
     shared(ctx, "C04.d", c06.rule_c, why="distance, transport density and info['flux'] all integrate face_to_cell(flat_flux, pt)")
     # mass balance to linear-solver precision needs every set-up to build its preconditioner / factorisation from the matrix it is given (C08.f)
